@@ -101,7 +101,9 @@ CHECKS["C02"] = dict(
 CHECKS["C07"] = dict(
     text="Theorems for every device state: unnamed_request_elicits_every_definition, named_request_elicits_only_that_definition (state untouched), "
          "definition_lists_enabled_elements_and_metadata, disabled_property_gets_no_definition; constructible_emitted_message_reads_back (C03 applied). "
-         "PARTIAL: that every emitted message is constructible (wfb over the live registry) is evaluated by the model for every emitted message on "
+         "the_answer_for_a_disabled_property_reads_back: the delProperty answering for a disabled property is constructible and is read back "
+         "unchanged by the parser, for every device and property and whatever their names (no hypothesis on the message). "
+         "PARTIAL: that every emitted DEFINITION is constructible (wfb over the live registry) is evaluated by the model for every emitted message on "
          "every run, not yet proved for all reachable states. Correspondence: generated Driver class hierarchies (inheritance depth <= 3) on a real "
          "Router with a recording client, histories of driver operations and client writes, then getProperties for existing / disabled / unknown / "
          "absent names and devices; traces and final states compared, every emitted message round-tripped through the library's own parser.",
